@@ -586,7 +586,7 @@ func sectionFaults(rng *vh.Rng, corpus []wlCase) {
 	}
 	n := 14
 	if args.Thorough {
-		n = 120
+		n = 60
 	}
 	for i := 0; i < n; i++ {
 		maxChunk := rng.PickI([]int{1, 30, 64, 100, 257})
@@ -610,7 +610,7 @@ func sectionFaults(rng *vh.Rng, corpus []wlCase) {
 	var serial []wlCase
 	m := 3
 	if args.Thorough {
-		m = 12
+		m = 6
 	}
 	for i := 0; i < m; i++ {
 		maxChunk := rng.PickI([]int{64, 100, 257})
@@ -1203,7 +1203,7 @@ func sectionSystem(rng *vh.Rng, corpus []sysCase) {
 		"lrsrv.Start (all components, temp dir) with generated MaxChunkSize {1 … 4096} and MaxRecordSize {default, 40, 64, 128, 300}; histories of 2..7 writes to 1..3 partitions (tag texts with quoted values, alias spellings of one tag set) through partition.Service.Write directly, the loop-back RPC client, and raw request bodies (whole or cut) served like ServerIngestor.write does; batch sizes {0,1,2, chunk capacity±1, hundreds (thorough: thousands)}, hostile message bytes, records 1 below/at/above MaxRecordSize, valid tricky field texts (a sixth of the histories also unparsable ones); interleaved and final unfiltered reads through backend.Querier and the RPC client with page sizes {1 … 10000}, store quiescent (flush awaited). IMPL vs MODEL: acknowledgement, every OnWrite call, chunk layout, read-back; IMPL vs SPEC: read-back = concatenation of acknowledged batches per partition with write-level fields before own fields and the partition's tag line; unservable/malformed writes must be rejected. non-trivial = at least one event stored, distinct by history")
 	n := 140
 	if args.Thorough {
-		n = 450
+		n = 350
 	}
 	cases := append([]sysCase{}, corpus...)
 	for i := 0; i < n; i++ {
